@@ -24,7 +24,13 @@ pub fn check_tree(o: &O, path: &str, errs: &mut Vec<(&'static str, String)>) -> 
                 prev = Some(dx); b.extend_from_slice(&dx);
                 if !assertion_slot_ok(x) { errs.push(("shape:non-assertion-in-assertion-slot", path.into())) }
             }
-            let r = sha256(&b); if r != *d { errs.push(("digest:node", path.into())) } r
+            let r = sha256(&b); if r != *d { errs.push(("digest:node", path.into())) }
+            // the specification defines the node digest over the subject and the SET of assertion digests in ascending order:
+            // a node assembled along a route that left a repeated or misplaced digest in the list has a digest the specification does not define
+            let mut ds: Vec<D> = a.iter().map(|x| x.digest()).collect(); ds.sort(); ds.dedup();
+            let mut b2 = s.digest().to_vec(); for x in &ds { b2.extend_from_slice(x) }
+            if sha256(&b2) != *d { errs.push(("digest:node-not-over-the-ascending-set-of-assertion-digests", path.into())) }
+            r
         }
         O::Obscured(_, d) => *d,
     }
